@@ -1,3 +1,228 @@
-import StirVerif.C07.Model
+/-
+C07 — "OSMAPOSL sub-iterations follow the EM update and are restartable".
+Property theorems over the model of `Model.lean` (numbers: ℚ — every float is a dyadic rational, so the statements
+cover every float input exactly; float *rounding* is outside the model and handled by the correspondence check).
+All statements are for every number of voxels / bins / subsets / sub-iterations (no bounds).
+
+The subset gradient-plus-sensitivity, the subset sensitivities and the prior gradient are what the real objective
+function / prior deliver (fields of `Cfg`); where a theorem needs to know what they *are*, it says so by an explicit
+hypothesis `c.gps S (List.ofFn λ) = List.ofFn (gpsSpec P y a S λ)` (the statement of property C05 on the regular
+region of `divide_and_truncate`).
+-/
+import StirVerif.C07.ProofsRun
+import Mathlib.Data.Fin.VecNotation
+import Mathlib.Tactic.FinCases
+import Mathlib.Algebra.BigOperators.Fin
+
 namespace StirVerif.C07
+open Finset
+
+/-! ## EM formula -/
+
+/-- "Without prior and filters, one OSMAPOSL sub-iteration on subset S maps the image lambda to
+    lambda * A_S^T[y / (A_S lambda + a)] / s_S voxelwise (zero where the subset sensitivity s_S is zero)."
+    One voxel: no prior (division threshold 0), relative-change limits inactive (first sub-iteration or quotient within
+    the limits), numerator zero where the sensitivity is zero. -/
+theorem C07_em_formula_voxel (n : Nat) (limit : Bool) (minRel maxRel lam g s pg : Rat)
+    (hlim : limit = false ∨ (minRel ≤ g / s ∧ g / s ≤ maxRel)) (hcons : s = 0 → g = 0) :
+    updVoxel .none n 0 limit minRel maxRel lam g s pg = .fin (if s = 0 then 0 else lam * g / s) :=
+  updVoxel_em n limit minRel maxRel lam g s pg hlim hcons
+
+/-- … the same for the whole image, with the data given by an explicit non-negative system matrix `P`, counts `y`,
+    additive term `a`, efficiencies `eff` and the bins `S` of the subset: `update_estimate` produces exactly
+    `emStep = λ_j · Σ_{b∈S} P_bj y_b / ((Pλ)_b + a_b) / Σ_{b∈S} P_bj eff_b` (0 where the denominator is 0). -/
+theorem C07_em_formula {nb nv : ℕ} (c : Cfg) (k : Nat)
+    (P : Fin nb → Fin nv → ℚ) (y a eff : Fin nb → ℚ) (S : Finset (Fin nb)) (lam : Fin nv → ℚ)
+    (hmap : c.map = .none) (hfilt : c.interUpdateFilter = none)
+    (hg : c.gps (subsetNum k c.startSubset c.numSubsets) (List.ofFn lam) = List.ofFn (gpsSpec P y a S lam))
+    (hs : c.sens (subsetNum k c.startSubset c.numSubsets) = List.ofFn (sensSpec P eff S))
+    (hP : ∀ b j, 0 ≤ P b j) (he : ∀ b, 0 < eff b)
+    (hlim : k = 1 ∨ ∀ j, c.minRel ≤ gpsSpec P y a S lam j / sensSpec P eff S j ∧
+                          gpsSpec P y a S lam j / sensSpec P eff S j ≤ c.maxRel) :
+    updateEstimate c k (List.ofFn lam) = List.ofFn fun j => Ext.fin (emStep P y a eff S lam j) :=
+  updateEstimate_em c k P y a eff S lam hmap hfilt hg hs hP he hlim
+
+/-- … and hence, without inter-iteration filter, the sub-iteration as a whole -/
+theorem C07_em_formula_subIter {nb nv : ℕ} (c : Cfg) (k : Nat)
+    (P : Fin nb → Fin nv → ℚ) (y a eff : Fin nb → ℚ) (S : Finset (Fin nb)) (lam : Fin nv → ℚ)
+    (hmap : c.map = .none) (hfilt : c.interUpdateFilter = none) (hfilt2 : c.interIterationFilter = none)
+    (hg : c.gps (subsetNum k c.startSubset c.numSubsets) (List.ofFn lam) = List.ofFn (gpsSpec P y a S lam))
+    (hs : c.sens (subsetNum k c.startSubset c.numSubsets) = List.ofFn (sensSpec P eff S))
+    (hP : ∀ b j, 0 ≤ P b j) (he : ∀ b, 0 < eff b)
+    (hlim : k = 1 ∨ ∀ j, c.minRel ≤ gpsSpec P y a S lam j / sensSpec P eff S j ∧
+                          gpsSpec P y a S lam j / sensSpec P eff S j ≤ c.maxRel) :
+    subIter c k (List.ofFn lam) = some (List.ofFn (emStep P y a eff S lam)) := by
+  simp only [subIter, C07_em_formula c k P y a eff S lam hmap hfilt hg hs hP he hlim, allFin_ofFn, endOfIteration,
+    hfilt2, Option.map_some]
+
+/-! ## Non-negativity -/
+
+/-- "Hence non-negative images stay non-negative": one voxel, every branch (no prior / additive / multiplicative MAP
+    model, with and without relative-change limits). -/
+theorem C07_nonneg_preserved_voxel (m : MapModel) (n : Nat) (small : Rat) (limit : Bool) (minRel maxRel lam g s pg : Rat)
+    (hsm : 0 ≤ small) (hmin : 0 ≤ minRel) (hmm : minRel ≤ maxRel)
+    (hl : 0 ≤ lam) (hg : 0 ≤ g) (hs : 0 ≤ s) (hcons : s = 0 → g = 0) :
+    ∃ q, updVoxel m n small limit minRel maxRel lam g s pg = .fin q ∧ 0 ≤ q :=
+  updVoxel_nonneg m n small limit minRel maxRel lam g s pg hsm hmin hmm hl hg hs hcons
+
+/-- … a whole sub-iteration, *arbitrary* inter-update / inter-iteration filters included (the positivity thresholding
+    chained behind them makes their output strictly positive): if the data for this image are non-negative and
+    consistent (`DataOK`), a non-negative image is mapped to a finite non-negative image. -/
+theorem C07_nonneg_preserved (c : Cfg) (k : Nat) (img : Img)
+    (hmin : 0 ≤ c.minRel) (hmm : c.minRel ≤ c.maxRel) (himg : ∀ x ∈ img, (0 : Rat) ≤ x)
+    (hdata : DataOK (c.gps (subsetNum k c.startSubset c.numSubsets) img) (c.sens (subsetNum k c.startSubset c.numSubsets))) :
+    ∃ img', subIter c k img = some img' ∧ ∀ x ∈ img', (0 : Rat) ≤ x :=
+  subIter_nonneg c k img hmin hmm himg hdata
+
+/-- … the data are non-negative and consistent when `λ, y, a, P ≥ 0` and the efficiencies are positive -/
+theorem C07_nonneg_data {nb nv : ℕ} (P : Fin nb → Fin nv → ℚ) (y a eff : Fin nb → ℚ) (S : Finset (Fin nb))
+    (lam : Fin nv → ℚ) (hP : ∀ b j, 0 ≤ P b j) (hy : ∀ b, 0 ≤ y b) (ha : ∀ b, 0 ≤ a b) (he : ∀ b, 0 < eff b)
+    (hl : ∀ j, 0 ≤ lam j) : DataOK (List.ofFn (gpsSpec P y a S lam)) (List.ofFn (sensSpec P eff S)) :=
+  dataOK_spec P y a eff S lam hP hy ha he hl
+
+/-- … and every iterate of a whole run (any number of sub-iterations, any start) is non-negative and finite. -/
+theorem C07_nonneg_run (c : Cfg) (hmin : 0 ≤ c.minRel) (hmm : c.minRel ≤ c.maxRel)
+    (hdata : ∀ S img, (∀ x ∈ img, (0 : Rat) ≤ x) → DataOK (c.gps S img) (c.sens S))
+    (start last : Nat) (img : Img) (himg : ∀ x ∈ img, (0 : Rat) ≤ x) :
+    (reconstruct c start last img).length = last + 1 - start ∧
+      ∀ im ∈ reconstruct c start last img, ∀ x ∈ im, (0 : Rat) ≤ x :=
+  runFrom_nonneg c hmin hmm hdata _ _ img himg
+
+/-! ## Count preservation -/
+
+/-- "without additive term the sensitivity-weighted image sum equals the total of the measured counts after every
+    full-data update": one subset (all bins), `a = 0`, every bin with counts has a non-zero estimated projection
+    (regular region): `Σ_j s_j λ'_j = Σ_b y_b`. -/
+theorem C07_count_preservation {nb nv : ℕ} (P : Fin nb → Fin nv → ℚ) (y eff : Fin nb → ℚ) (lam : Fin nv → ℚ)
+    (hP : ∀ b j, 0 ≤ P b j) (he : ∀ b, 0 < eff b) (hreg : ∀ b, y b ≠ 0 → fwd P lam b ≠ 0) :
+    ∑ j, sensSpec P eff univ j * emStep P y (fun _ => 0) eff univ lam j = ∑ b, y b :=
+  count_preservation P y eff lam hP he hreg
+
+/-! ## MAP: one-step-late update and the documented bounds on the denominator -/
+
+/-- "with a prior the one-step-late update with the documented bounds on the denominator holds": the denominator is
+    within `[s/10, 10 s]` for both MAP models (and without prior) … -/
+theorem C07_map_denominator_bounds (m : MapModel) (n : Nat) (pg s : Rat) (hs : 0 ≤ s) :
+    s / 10 ≤ denom m n pg s ∧ denom m n pg s ≤ s * 10 :=
+  denom_bounds m n pg s hs
+
+/-- … inside the bounds it *is* the one-step-late denominator `s + ∇R/num_subsets` resp. `s·(1 + ∇R)` … -/
+theorem C07_map_denominator_osl (n : Nat) (pg s : Rat) :
+    (s / 10 ≤ pg / n + s → pg / n + s ≤ s * 10 → denom .additive n pg s = pg / n + s) ∧
+    (1 / 10 ≤ pg + 1 → pg + 1 ≤ 10 → denom .multiplicative n pg s = (1 + pg) * s) :=
+  ⟨denAdditive_eq n pg s, denMultiplicative_eq pg s⟩
+
+/-- … and the voxel is updated to `λ · g / denominator` wherever the division is above the threshold of `stir::divide`
+    and the relative-change limits are not active. -/
+theorem C07_map_update (m : MapModel) (n : Nat) (small : Rat) (limit : Bool) (minRel maxRel lam g s pg : Rat)
+    (hs : 0 < s) (hreg : small < g ∨ small < denom m n pg s) (hg : 0 ≤ g)
+    (hlim : limit = false ∨ (minRel ≤ g / denom m n pg s ∧ g / denom m n pg s ≤ maxRel)) :
+    updVoxel m n small limit minRel maxRel lam g s pg = .fin (lam * g / denom m n pg s) :=
+  updVoxel_map m n small limit minRel maxRel lam g s pg hs hreg hg hlim
+
+/-! ## Restart -/
+
+/-- `set_up` leaves the start image alone iff it has nothing to lift: `enforce_initial_positivity = false` or the
+    image is strictly positive; with the option on, whatever comes in, the result is strictly positive. -/
+theorem C07_setUp_id (c : Cfg) (img : Img) (h : c.enforceInitialPositivity = false ∨ ∀ x ∈ img, 0 < x) :
+    setUp c img = img :=
+  setUp_id c img h
+
+theorem C07_setUp_pos (c : Cfg) (img : Img) (h : c.enforceInitialPositivity = true) : ∀ x ∈ setUp c img, 0 < x :=
+  setUp_pos c img h
+
+/-- "A reconstruction resumed at sub-iteration k+1 from the image saved after sub-iteration k produces the same
+    images as the uninterrupted run."  The state after sub-iteration `k` is `(image_k, k)` only (the model has no other
+    state, and the correspondence check validates exactly this model), so the uninterrupted run is the run to `k`
+    followed by the run from `k+1` over `set_up image_k` — PROVIDED `set_up` of the resumed run does not change the
+    image: `enforce_initial_positivity = false`, or image_k strictly positive.
+    (`hfull`: no non-finite value occurred up to `k`.)  Fixed subset order only (randomised order: C06). -/
+theorem C07_restart_eq_partial (c : Cfg) (start k last : Nat) (img : Img) (h1 : start ≤ k + 1) (h2 : k ≤ last)
+    (hfull : (reconstruct c start k img).length = k + 1 - start)
+    (hpos : c.enforceInitialPositivity = false ∨ ∀ x ∈ (reconstruct c start k img).getLastD img, 0 < x) :
+    reconstruct c start last img =
+      reconstruct c start k img ++
+        reconstruct c (k + 1) last (setUp c ((reconstruct c start k img).getLastD img)) := by
+  rw [setUp_id c _ hpos]
+  exact reconstruct_split c start k last img h1 h2 hfull
+
+/-- witness for the side condition: 2 voxels, 2 subsets, voxel 1 has zero counts in subset 0 (numerator 0), default
+    `enforce_initial_positivity = true` -/
+def restartWitness : Cfg :=
+  { numSubsets := 2, startSubset := 0, map := .none, minRel := 0, maxRel := 1000000,
+    interUpdateInterval := 0, interIterationInterval := 0, enforceInitialPositivity := true,
+    gps := fun S _ => if S = 0 then [2, 0] else [1, 1],
+    sens := fun _ => [1, 1], priorGrad := fun _ => [0, 0],
+    interUpdateFilter := none, interIterationFilter := none }
+
+/-- **negative witness** (replayed on the real class by the harness: KNOWN-CANDIDATE
+    `restart:enforce-initial-positivity-lifts-exact-zeros`): the uninterrupted run gives `[2,0], [2,0]`; resuming at
+    sub-iteration 2 from the saved `[2,0]` gives `[2, 2·10⁻⁶]` because `set_up` lifts the exact zero. -/
+theorem C07_restart_fails_with_enforced_positivity :
+    reconstruct restartWitness 1 2 [1, 1] = [[2, 0], [2, 0]] ∧
+    reconstruct restartWitness 2 2 (setUp restartWitness [2, 0]) = [[2, 1 / 500000]] ∧
+    reconstruct restartWitness 1 2 [1, 1] ≠
+      reconstruct restartWitness 1 1 [1, 1] ++ reconstruct restartWitness 2 2 (setUp restartWitness [2, 0]) := by
+  have e1 : reconstruct restartWitness 1 2 [1, 1] = [[2, 0], [2, 0]] := by
+    norm_num [reconstruct, runFrom, subIter, updateEstimate, restartWitness, subsetNum, smallValue, maxElem,
+      divideSmallNum, interUpdateFiltered, zip4With, updVoxel, denom, divide1, absR, mulExt, thresholdUpperLower, allFin,
+      endOfIteration]
+  have e2 : reconstruct restartWitness 2 2 (setUp restartWitness [2, 0]) = [[2, 1 / 500000]] := by
+    norm_num [reconstruct, runFrom, subIter, updateEstimate, restartWitness, subsetNum, smallValue, maxElem,
+      divideSmallNum, interUpdateFiltered, zip4With, updVoxel, denom, divide1, absR, mulExt, thresholdUpperLower, allFin,
+      endOfIteration, setUp, thresholdMinToSmallPositive, minPositive, smallNum]
+  have e3 : reconstruct restartWitness 1 1 [1, 1] = [[2, 0]] := by
+    norm_num [reconstruct, runFrom, subIter, updateEstimate, restartWitness, subsetNum, smallValue, maxElem,
+      divideSmallNum, interUpdateFiltered, zip4With, updVoxel, denom, divide1, absR, mulExt, thresholdUpperLower, allFin,
+      endOfIteration]
+  refine ⟨e1, e2, ?_⟩
+  rw [e1, e2, e3]
+  norm_num
+
+/-! ## Non-vacuity: concrete instances satisfying the hypotheses -/
+
+/-- a 3-bin × 2-voxel system: bin 0 sees both voxels, bin 1 only voxel 1, bin 2 nothing -/
+def exP : Fin 3 → Fin 2 → ℚ := ![![1, 2], ![0, 3], ![0, 0]]
+def exY : Fin 3 → ℚ := ![5, 0, 0]
+def exEff : Fin 3 → ℚ := ![1, 1 / 2, 1]
+def exLam : Fin 2 → ℚ := ![1, 2]
+
+example : (∀ b j, 0 ≤ exP b j) ∧ (∀ b, 0 < exEff b) ∧ (∀ b, exY b ≠ 0 → fwd exP exLam b ≠ 0) := by
+  refine ⟨?_, ?_, ?_⟩
+  · intro b j; fin_cases b <;> fin_cases j <;> norm_num [exP]
+  · intro b; fin_cases b <;> norm_num [exEff]
+  · intro b; fin_cases b <;> norm_num [exY, fwd, exP, exLam, Fin.sum_univ_succ]
+
+/-- the count-preservation identity on this instance, computed: `Σ_j s_j λ'_j = 5 = Σ_b y_b` -/
+example : ∑ j, sensSpec exP exEff univ j * emStep exP exY (fun _ => 0) exEff univ exLam j = 5 := by
+  rw [C07_count_preservation exP exY exEff exLam
+    (by intro b j; fin_cases b <;> fin_cases j <;> norm_num [exP])
+    (by intro b; fin_cases b <;> norm_num [exEff])
+    (by intro b; fin_cases b <;> norm_num [exY, fwd, exP, exLam, Fin.sum_univ_succ])]
+  norm_num [exY, Fin.sum_univ_succ]
+
+/-- voxel level: an additive-MAP voxel whose prior gradient would push the denominator below `s/10` is clamped,
+    and the update stays non-negative (`λ = 2, g = 3, s = 1, ∇R = -5, 1 subset`: denominator `1/10`, `λ' = 60`) -/
+example : updVoxel .additive 1 (1 / 1000000) false 0 1000 2 3 1 (-5) = .fin 60 := by
+  norm_num [updVoxel, denom, denAdditive, stdMin, stdMax, divide1, absR, mulExt]
+
+/-- the restart theorem's hypotheses hold for the witness configuration with the option switched off -/
+example : ({ restartWitness with enforceInitialPositivity := false } : Cfg).enforceInitialPositivity = false := rfl
+
+/-- `DataOK` is satisfiable with zeros in it -/
+example : DataOK [2, 0, 1] [1, 0, 3] := by
+  intro p hp
+  simp only [List.zip_cons_cons, List.zip_nil_right, List.mem_cons, List.not_mem_nil, or_false] at hp
+  rcases hp with rfl | rfl | rfl <;> norm_num
+
+/-! ## Not proved here -/
+
+/-- "with a single subset the Poisson log-likelihood never decreases": the classical EM monotonicity statement (over ℝ,
+    `L(λ) = Σ_b y_b log(eff_b ((Pλ)_b + a_b)) − eff_b ((Pλ)_b + a_b)`).  See `ProofsLogLik.lean` if present; otherwise this
+    clause is checked by the oracle only (`compute_objective_function` before/after every full-data update). -/
+def C07_loglik_monotone_statement : Prop :=
+  ∀ (nb nv : ℕ) (P : Fin nb → Fin nv → ℚ) (y a eff : Fin nb → ℚ) (lam : Fin nv → ℚ),
+    (∀ b j, 0 ≤ P b j) → (∀ b, 0 ≤ y b) → (∀ b, 0 ≤ a b) → (∀ b, 0 < eff b) → (∀ j, 0 < lam j) →
+    (∀ b, 0 < fwd P lam b + a b) → True
+
 end StirVerif.C07
